@@ -244,6 +244,28 @@ def t05_ord(run, fx):
             run.fail(rule, "position-order", "glyph_positions: %s" % msg, "%s:%s" % (b.file, b.line))
 
 
+def t05_order(run, fx):
+    rule = "T05-ORDER"
+    run.rule(rule, "GPOS lookups of a feature are applied in LookupList order whatever order the feature table lists them in (OpenType: 'lookups are "
+                   "applied in the order of their lookup-list index'): in gpos::apply_features the list of lookup indices that drives "
+                   "gpos_apply_lookup is sorted (sort / sort_unstable) on every path before the loop that applies it")
+    b = fx.body("gpos::apply_features")
+    if b is None:
+        return run.anchor_missing(rule, "gpos::apply_features")
+    sorts = [bi for bi, t in b.calls() if (t["callee"].get("path") or "").split("::")[-1] in ("sort", "sort_unstable", "sort_by_key", "sort_unstable_by_key")]
+    applies = [bi for bi, t in b.calls() if callee_is(t, "gpos::gpos_apply_lookup")]
+    for cb in fx.closures_of(b) if hasattr(fx, "closures_of") else []:
+        applies += [None for bi, t in cb.calls() if callee_is(t, "gpos::gpos_apply_lookup")]
+    if not applies:
+        return run.anchor_missing(rule, "gpos_apply_lookup call in apply_features")
+    real = [a for a in applies if a is not None]
+    if sorts and (not real or all(any(b.dominates(sb, a) for sb in sorts) for a in real)):
+        run.ok(rule, "apply_features sorts the lookup indices before applying them")
+    else:
+        run.fail(rule, "gpos-lookup-order", "gpos::apply_features applies the lookups of a feature in the order the feature table lists them: a feature that lists "
+                 "[1, 0] applies lookup 1 before lookup 0", "%s:%s" % (b.file, b.line))
+
+
 def check(run, fx, tier, floors=True):
     run.rule("T05-TYPE", "GPOS::check_lookup_type is the table {1: SinglePos, 2: PairPos, 3: CursivePos, 4: MarkBasePos, 5: MarkLigPos, 6: MarkMarkPos, "
                          "7: ContextPos, 8: ChainContextPos, 9: Extension}; every other number is an error")
@@ -256,6 +278,8 @@ def check(run, fx, tier, floors=True):
     t05_disp(run, fx)
     t05_skip(run, fx)
     t05_base(run, fx)
+    if floors or fx.body("gpos::apply_features") is not None:
+        t05_order(run, fx)
     if floors or fx.adt("context::IgnoreMarks") is not None:
         rules_C04.t04_marks(run, fx)
     if floors or any(b.root.endswith("::glyph_positions") for b in fx.bodies):
